@@ -452,6 +452,9 @@ def object_data_size(data_type, data_values):
 
 def _to_np_array(data):
     if isinstance(data, np.ndarray):
+        if not data.dtype.isnative:
+            # Data is written as little endian, which assumes native byte order
+            return data.astype(data.dtype.newbyteorder('='))
         return data
 
     dtype = _infer_dtype(data)
